@@ -18,6 +18,7 @@ import IocProofs.Lemmas.ValueKeys
 import IocProofs.Lemmas.SemStages
 import IocProofs.Lemmas.SemUnmarshall
 import IocProofs.Lemmas.SemBinder
+import IocProofs.Lemmas.SemArgs
 namespace Ioc.C17
 open Ioc Ioc.Tag Ioc.Value
 
@@ -563,5 +564,12 @@ theorem C17_code_binder_Set (me : Go.Val → Option String) (w : List VCall) :
   ⟨fun path v => binderSet_sem me path v w, fun c => binderSetConfig_sem me c w⟩
 
 end binder
+
+/-- TagArg.Parse (regenerated, `C19_code_Parse`) returns the value part of a tag text EXACTLY as the splitter delivers it and
+    hands every argument to Set as written — nothing is trimmed, lower-cased or dropped on the way: a literal value reaches the field with its blanks -/
+theorem C17_code_tag_text_as_written (o : Sem.StrOps) (tag : String) (w : Sem.SetLog) :
+    Go.run (Sem.parsePrims o) Progs.arg_Parse [.str tag] w =
+      some (.str (o.splitC tag).1, w ++ (o.splitC tag).2.map (Sem.parseArg o)) :=
+  Sem.argParse_sem o tag w
 
 end Ioc.C17
